@@ -178,3 +178,9 @@ func (r *Recorder) MHB(e int, v []int, src string) {
 }
 
 func (r *Recorder) End() { r.emit(line{"op": "end"}) }
+
+// Crit records that the instance reported a critical error (it is unusable afterwards).
+func (r *Recorder) Crit(msg string) {
+	r.emit(line{"op": "crit", "msg": msg})
+	r.Stats["critical_errors"]++
+}
